@@ -34,7 +34,7 @@ var (
 	// pkg/allocator/store.go: IPAllocator backed by an AllocationStore
 	poolAllocatorFuncs = []string{
 		"allocator.NewPoolAllocatorWithType", "allocator.PoolAllocator.AllocateWithOptions", "allocator.PoolAllocator.Allocate",
-		"allocator.PoolAllocator.Release", "allocator.PoolAllocator.Lookup", "allocator.PoolAllocator.Stats",
+		"allocator.MemoryAllocationStore.RemoveAllocation", "allocator.PoolAllocator.Release", "allocator.PoolAllocator.Lookup", "allocator.PoolAllocator.Stats",
 	}
 	// pkg/pool/peer.go: the addresses a peer hands out itself
 	peerLocalFuncs = []string{
